@@ -239,6 +239,24 @@ CFGS = [{"integrator": "whfast", "safe": 1}, {"integrator": "whfast", "safe": 0}
         {"integrator": "ias15", "var": 1}, {"integrator": "whfast", "safe": 1, "var": 1}, {"integrator": "ias15", "var": 2}]
 
 
+# independent-simulation runs only: several collisions per step that share a particle, so that the (per-simulation, seeded) random order of
+# resolution matters -- it must come from the simulation's own generator, not from one shared by the process
+COLL_CFGS = [{"integrator": "leapfrog", "coll": "merge"}, {"integrator": "leapfrog", "coll": "hardsphere"}, {"integrator": "ias15", "coll": "merge"},
+             {"integrator": "whfast", "safe": 1, "coll": "hardsphere"}]
+
+
+def add_clumps(sim, cfg, seed):
+    rng = random.Random(seed)
+    sim.collision = "direct"
+    sim.collision_resolve = cfg["coll"]
+    sim.rand_seed = 1000 + seed % 7
+    for c in range(3):
+        cx, cy = 6.0 + 3.0 * c, -4.0 + 2.5 * c
+        for k in range(4):
+            sim.add(m=1e-6 * (k + 1), r=0.05, x=cx + 0.06 * k + 0.01 * rng.random(), y=cy + 0.03 * (k % 2), z=0.01 * k,
+                    vx=-0.4 * (k - 1.5), vy=0.3 + 0.05 * rng.random(), vz=0.0)
+
+
 def server_mode(out, seed, nruns, workdir):
     os.chdir(workdir)
     if not os.path.exists("rebound.html"):
@@ -260,10 +278,13 @@ def server_mode(out, seed, nruns, workdir):
 # ------------------------------------------------------------------------------------------
 def work_item(kind, seed):
     """one independent piece of work on its own simulation; returns a digest"""
-    cfg = CFGS[kind % len(CFGS)]
+    allc = CFGS + COLL_CFGS
+    cfg = allc[kind % len(allc)]
     if cfg["integrator"] == "janus":
         cfg = dict(cfg, order=[2, 4, 6, 8, 10][seed % 5])
     sim = build(cfg, seed)
+    if cfg.get("coll"):
+        add_clumps(sim, cfg, seed)
     sim.integrate(0.6 + 0.05 * (seed % 5), exact_finish_time=seed % 2)
     c = sim.copy()
     c.integrate(sim.t + 0.2)
@@ -278,7 +299,8 @@ def work_item(kind, seed):
 def threads_mode(out, seed, rounds):
     res = {"rounds": 0, "items": 0, "mismatches": []}
     for rd in range(rounds):
-        items = [(k, seed * 1000 + rd * 50 + k) for k in range(len(CFGS))] + [(9, seed * 1000 + rd * 50 + 40 + j) for j in range(4)]
+        items = [(k, seed * 1000 + rd * 50 + k) for k in range(len(CFGS) + len(COLL_CFGS))] + [(9, seed * 1000 + rd * 50 + 40 + j) for j in range(4)] + \
+                [(len(CFGS) + j % len(COLL_CFGS), seed * 1000 + rd * 50 + 60 + j) for j in range(6)]
         seq = [work_item(k, s) for k, s in items]
         conc = [None] * len(items)
 
@@ -293,7 +315,7 @@ def threads_mode(out, seed, rounds):
         for i, (a, b) in enumerate(zip(seq, conc)):
             res["items"] += 1
             if a != b:
-                res["mismatches"].append({"round": rd, "item": items[i], "cfg": CFGS[items[i][0] % len(CFGS)]})
+                res["mismatches"].append({"round": rd, "item": items[i], "cfg": (CFGS + COLL_CFGS)[items[i][0] % len(CFGS + COLL_CFGS)]})
         res["rounds"] += 1
     json.dump(res, open(out, "w"))
 
